@@ -58,6 +58,8 @@ def configs(tier, seed):
         [("F", 4, "sparse"), ("R0", 2, "dense"), ("P", 2, "dense"), ("2I", 3, "operator")],
         [("I", 1, "dense"), ("H", 6, "sparse")],
         [],
+        [("I", 3, "dense", 0), ("P", 3, "dense", 0)],                       # same attribute, same shape, different matrices
+        [("2I", 4, "sparse", 0), ("I", 4, "dense", 0), ("F", 4, "dense", 0)],
     ]
     if tier == "thorough":
         pats = ["I", "2I", "P", "T", "F", "R0", "R1", "H"]
@@ -72,14 +74,14 @@ def configs(tier, seed):
         fams.append([("F", 10, "dense"), ("P", 10, "sparse"), ("H", 9, "dense"), ("R1", 7, "dense")])
     for k, fam in enumerate(fams):
         for impl in ("factored", "local", "public"):
-            cfgs.append(dict(name="%s:%d:%s" % (impl, k, "+".join("%s%d%s" % (p, n, s[0]) for p, n, s in fam)), impl=impl, fam=fam, cost=2))
+            cfgs.append(dict(name="%s:%d:%s" % (impl, k, "+".join("%s%d%s" % (f[0], f[1], f[2][0]) for f in fam)), impl=impl, fam=fam, cost=2))
     return cfgs
 
 
 # attribute sizes available for projections: a measurement over a domain of size n uses one fresh attribute of that size
 def domain_for(fam):
     attrs = ["x%d" % i for i in range(len(fam))] or ["x0"]
-    sizes = [n for _, n, _ in fam] or [2]
+    sizes = [f[1] for f in fam] or [2]
     return attrs, sizes
 
 
@@ -122,6 +124,8 @@ class _QShape:
 
 def scenario_for(cfg, mode):
     fam = [tuple(f) for f in cfg["fam"]]
+    which = [f[3] if len(f) > 3 else i for i, f in enumerate(fam)]       # attribute index each measurement is about
+    fam = [f[:3] for f in fam]
     impl = cfg["impl"]
 
     def scenario(V):
@@ -157,7 +161,7 @@ def scenario_for(cfg, mode):
                 y = V.array((Q.shape[0],), lambda idx: V.real("y%d_%d" % (k, idx[0])))
             sigma = V.real("sg%d" % k, "p")
             Qg = {"dense": Q, "sparse": sparse.csr_matrix(Q), "operator": aslinearoperator(Q)}[spell]
-            ms.append((Qg, y, sigma, (attrs[k],)))
+            ms.append((Qg, y, sigma, (attrs[which[k]],)))
             orc.append((Q, y, sigma))
             # validation of the lsmr contract the symbolic run relies on: scipy's lsmr, called exactly as the code calls it, must recognise the
             # ones vector in the row space of Q whenever it is there (and only then)
@@ -182,6 +186,20 @@ def scenario_for(cfg, mode):
             if total is not None:
                 return total      # PublicInference.estimate uses the supplied total directly (checked in C19)
             return pi.estimate_total(list(ms))
+        if mode == "history_api":
+            # the public entry point with the options argument left to its default, several calls with different supplied totals
+            from . import estim
+            estim.prepare_inference(V, 2)
+            N1, N2 = V.real("N1", "p"), V.real("N2", "p")
+            e2 = mbi.FactoredInference(dom, iters=0)
+            m1 = e2.estimate(list(ms), total=N1)
+            T.append(("history:estimate() uses the supplied total (1st call)", m1.total, N1))
+            e3 = mbi.FactoredInference(dom, iters=0)
+            m2 = e3.estimate(list(ms), total=N2)
+            T.append(("history:estimate() uses the supplied total (2nd call, other estimator object)", m2.total, N2))
+            m3 = e2.estimate(list(ms), total=N2)
+            T.append(("history:estimate() uses the supplied total (same estimator object)", m3.total, N2))
+            return T
         if mode == "history":
             # one warm-started estimator object, three calls with the same measurements: given N1, given N2, omitted
             N1, N2 = V.real("N1", "p"), V.real("N2", "p")
@@ -242,8 +260,10 @@ def run_config(cfg):
     res.functions = shims.fn_fingerprint(mbi.FactoredInference._setup, mbi.LocalInference._setup, pi.estimate_total,
                                          mbi.FactoredInference.fix_measurements)
     rng = harness.rng_for(cfg)
-    for mode in ("noisy", "noisefree", "given", "history"):
-        if mode in ("given", "history") and cfg["impl"] == "public":
+    for mode in ("noisy", "noisefree", "given", "history", "history_api"):
+        if mode in ("given", "history", "history_api") and cfg["impl"] == "public":
+            continue
+        if mode == "history_api" and (cfg["impl"] != "factored" or len(cfg["fam"]) > 2):
             continue
         values.run_scenario(res, scenario_for(cfg, mode), rng=rng, tag=mode + ":", max_paths=8, timeout_ms=30000)
     return res
@@ -258,14 +278,17 @@ def finding_key(c):
 
 def replay(c):
     mode = c.get("what", "noisy:").split(":")[0]
-    if mode not in ("noisy", "noisefree", "given", "history"):
+    if c.get("what", "").startswith("history_api"):
+        mode = "history_api"
+    if mode not in ("noisy", "noisefree", "given", "history", "history_api"):
         mode = "noisy"
     sc = scenario_for(c["config"], mode)
     env = dict(c.get("env") or {})
     if mode == "noisefree":
         # keep the clause's precondition N >= 1, x >= 0 in the random points as well
         env.setdefault("N", 7.0)
-        for k, (pat, n, spell) in enumerate(c["config"]["fam"]):
+        for k, f_ in enumerate(c["config"]["fam"]):
+            n = f_[1]
             for i in range(n - 1):
                 env.setdefault("x%d_%d" % (k, i), 7.0 / (n + 1))
     c2 = dict(c)
